@@ -10,7 +10,7 @@ import CanVerif.Proofs.DbcText
 handed to its own parser (`scan_*`), and the file is read as the fold of the statements' effects.
 -/
 namespace CanVerif.Dbc.FileProofs
-open CanVerif CanVerif.Dbc
+open CanVerif CanVerif.Dbc CanVerif.Dbc.CommentProofs CanVerif.Num
 
 /-- ends in a semicolon -/
 def EndsSemi (s : Str) : Prop := s.getLast? = some ';'
@@ -371,5 +371,522 @@ theorem read_prefix (pre post : List Stmt) :
     readFile (writeStmts (pre ++ post)) = (writeStmts post).foldl stepFile (readFile (writeStmts pre)) := by
   unfold readFile writeStmts
   rw [List.map_append, List.foldl_append]
+
+/-! ## the error counter is write-only -/
+
+/-- the same matrix with `k` more printed errors -/
+def addErr (m : RMatrix) (k : Nat) : RMatrix := { m with errors := m.errors + k }
+
+@[simp] theorem addErr_frames (m : RMatrix) (k : Nat) : (addErr m k).frames = m.frames := rfl
+@[simp] theorem addErr_ecus (m : RMatrix) (k : Nat) : (addErr m k).ecus = m.ecus := rfl
+@[simp] theorem addErr_defs (m : RMatrix) (k : Nat) : (addErr m k).defs = m.defs := rfl
+@[simp] theorem addErr_attrs (m : RMatrix) (k : Nat) : (addErr m k).attrs = m.attrs := rfl
+@[simp] theorem addErr_tables (m : RMatrix) (k : Nat) : (addErr m k).tables = m.tables := rfl
+@[simp] theorem addErr_cur (m : RMatrix) (k : Nat) : (addErr m k).cur = m.cur := rfl
+@[simp] theorem addErr_pending (m : RMatrix) (k : Nat) : (addErr m k).pending = m.pending := rfl
+@[simp] theorem frameIdx_addErr (m : RMatrix) (k n : Nat) : frameIdx (addErr m k) n = frameIdx m n := rfl
+@[simp] theorem ecuIdx_addErr (m : RMatrix) (k : Nat) (n : Str) : ecuIdx (addErr m k) n = ecuIdx m n := rfl
+@[simp] theorem numericOk_addErr (m : RMatrix) (k : Nat) (l : Level) (a v : Str) : numericOk (addErr m k) l a v = numericOk m l a v := rfl
+
+theorem addErr_err (m : RMatrix) (k : Nat) : (addErr m k).err = addErr m.err k := by
+  simp [addErr, RMatrix.err, Nat.add_right_comm]
+
+macro "close_err" : tactic =>
+  `(tactic| first | rfl | (simp only [addErr, RMatrix.err, RMatrix.modFrame, Nat.add_right_comm]; done) | (simp only [addErr, RMatrix.err, RMatrix.modFrame, Nat.add_right_comm]; rfl))
+
+theorem addDefine_addErr (m : RMatrix) (k : Nat) (d : DefLine) : addDefine (addErr m k) d = addErr (addDefine m d) k := by
+  unfold addDefine
+  by_cases h1 : (m.defs.any fun x => x.level == d.level && x.name == d.name) = true
+  · have h1' : ((addErr m k).defs.any fun x => x.level == d.level && x.name == d.name) = true := h1
+    rw [if_pos h1', if_pos h1]
+  · have h1' : ¬ ((addErr m k).defs.any fun x => x.level == d.level && x.name == d.name) = true := h1
+    rw [if_neg h1', if_neg h1]
+    by_cases h2 : (!defineOk d.definition) = true
+    · rw [if_pos h2, if_pos h2]; exact addErr_err m k
+    · rw [if_neg h2, if_neg h2]; rfl
+
+theorem applyCore_addErr (m : RMatrix) (k : Nat) (it : Item) : applyCore (addErr m k) it = addErr (applyCore m it) k := by
+  cases it with
+  | cm hd text =>
+    cases hd <;> simp only [applyCore, frameIdx_addErr, ecuIdx_addErr, addErr_frames, addErr_ecus] <;> (repeat' split) <;> close_err
+  | cmOpen hd text =>
+    cases hd <;> simp only [applyCore, frameIdx_addErr, ecuIdx_addErr, addErr_frames, addErr_ecus] <;> (repeat' split) <;> close_err
+  | adef d => simp only [applyCore]; exact addDefine_addErr m k d
+  | ba b =>
+    obtain ⟨attr, tgt, v⟩ := b
+    cases tgt with
+    | global =>
+      simp only [applyCore]
+      by_cases h : numericOk m .global attr v = true
+      · have h' : numericOk (addErr m k) .global attr v = true := h
+        rw [if_pos h', if_pos h]; rfl
+      · have h' : ¬ numericOk (addErr m k) .global attr v = true := h
+        rw [if_neg h', if_neg h]; exact addErr_err m k
+    | ecu n =>
+      simp only [applyCore]
+      by_cases h : (!numericOk m .ecu attr v) = true
+      · have h' : (!numericOk (addErr m k) .ecu attr v) = true := h
+        rw [if_pos h', if_pos h]; exact addErr_err m k
+      · have h' : ¬ (!numericOk (addErr m k) .ecu attr v) = true := h
+        rw [if_neg h', if_neg h]
+        simp only [ecuIdx_addErr, addErr_ecus]
+        split <;> close_err
+    | frame id =>
+      simp only [applyCore]
+      by_cases h : (!numericOk m .frame attr v) = true
+      · have h' : (!numericOk (addErr m k) .frame attr v) = true := h
+        rw [if_pos h', if_pos h]; exact addErr_err m k
+      · have h' : ¬ (!numericOk (addErr m k) .frame attr v) = true := h
+        rw [if_neg h', if_neg h]
+        simp only [frameIdx_addErr]
+        split <;> close_err
+    | signal id n =>
+      simp only [applyCore]
+      by_cases h : (!numericOk m .signal attr v) = true
+      · have h' : (!numericOk (addErr m k) .signal attr v) = true := h
+        rw [if_pos h', if_pos h]; exact addErr_err m k
+      · have h' : ¬ (!numericOk (addErr m k) .signal attr v) = true := h
+        rw [if_neg h', if_neg h]
+        simp only [frameIdx_addErr, addErr_frames]
+        (repeat' split) <;> close_err
+  | mulBad id =>
+    simp only [applyCore]
+    by_cases h : (frameIdx m id).isSome = true
+    · have h' : (frameIdx (addErr m k) id).isSome = true := h
+      rw [if_pos h', if_pos h]; close_err
+    · have h' : ¬ (frameIdx (addErr m k) id).isSome = true := h
+      rw [if_neg h', if_neg h]; rfl
+  | _ =>
+    simp only [applyCore, frameIdx_addErr, addErr_frames, addErr_ecus, addErr_defs, addErr_tables, addErr_cur]
+    repeat' split
+    all_goals close_err
+
+theorem applyItem_addErr (m : RMatrix) (k : Nat) (it : Item) : applyItem (addErr m k) it = addErr (applyItem m it) k := by
+  unfold applyItem
+  cases it.frameNo with
+  | none => exact applyCore_addErr m k it
+  | some n =>
+    simp only
+    by_cases h : (keyOfCompound n).isNone = true
+    · rw [if_pos h, if_pos h]
+      cases it <;> first | rfl | exact addErr_err m k
+    · rw [if_neg h, if_neg h]; exact applyCore_addErr m k it
+
+theorem closeComment_addErr (m : RMatrix) (k : Nat) (t : CmTarget) (text : Str) :
+    closeComment (addErr m k) t text = addErr (closeComment m t text) k := by
+  unfold closeComment
+  cases t with
+  | sig fi si => cases si <;> rfl
+  | frame fi => cases fi <;> rfl
+  | ecu ei => rfl
+
+/-- the error counter is write-only: a step on a matrix with `k` more errors is the step with `k` more errors -/
+theorem stepFile_addErr (m : RMatrix) (k : Nat) (line : Str) : stepFile (addErr m k) line = addErr (stepFile m line) k := by
+  unfold stepFile
+  simp only [addErr_pending]
+  cases hp : m.pending with
+  | some p =>
+    obtain ⟨t, acc⟩ := p
+    simp only
+    by_cases he : endsStatement line = true
+    · rw [if_pos he, if_pos he]; exact closeComment_addErr m k t _
+    · rw [if_neg he, if_neg he]; rfl
+  | none =>
+    simp only
+    cases scanLine line with
+    | skip => rfl
+    | error => exact addErr_err m k
+    | item it => exact applyItem_addErr m k it
+
+theorem foldl_addErr (m : RMatrix) (k : Nat) (ls : List Str) : ls.foldl stepFile (addErr m k) = addErr (ls.foldl stepFile m) k := by
+  induction ls generalizing m with
+  | nil => rfl
+  | cons l ls ih => rw [List.foldl_cons, List.foldl_cons, stepFile_addErr, ih]
+
+theorem addErr_zero (m : RMatrix) : addErr m 0 = m := rfl
+theorem addErr_addErr (m : RMatrix) (a b : Nat) : addErr (addErr m a) b = addErr m (a + b) := by
+  simp [addErr, Nat.add_assoc]
+theorem err_eq_addErr (m : RMatrix) : m.err = addErr m 1 := rfl
+
+/-- bad lines of both kinds - skipped ones and ones whose handler raises - scattered anywhere between the statements: the result is the
+fold of the statements' effects, with one more printed error per raising line and no other difference -/
+theorem read_with_bad (isBad : Str → Bool) (hbad : ∀ b, isBad b = true → scanLine b = .skip ∨ scanLine b = .error)
+    (ls : List Str) (ss : List Stmt) (hl : ls.filter (fun l => !isBad l) = writeStmts ss) (h : ∀ s ∈ ss, s.wf = true)
+    (m : RMatrix) (hm : m.pending = none) :
+    ls.foldl stepFile m = addErr (ss.foldl applyStmt m) (ls.filter fun l => isBad l && scanLine l == .error).length := by
+  induction ls generalizing ss m with
+  | nil =>
+    cases ss with
+    | nil => rfl
+    | cons s ss' => simp [writeStmts] at hl
+  | cons l ls ih =>
+    by_cases hb : isBad l = true
+    · simp only [List.filter_cons, hb, Bool.not_true, Bool.false_eq_true, if_false] at hl
+      rw [List.foldl_cons]
+      rcases hbad l hb with hs | he
+      · rw [step_skip m l hm hs, ih ss hl h m hm]
+        simp [hb, hs]
+      · rw [step_error m l hm he, err_eq_addErr, foldl_addErr, ih ss hl h m hm, addErr_addErr]
+        simp [hb, he]
+    · have hb' : isBad l = false := by simpa using hb
+      simp only [List.filter_cons, hb', Bool.not_false, if_true] at hl
+      obtain ⟨s, ss', rfl, rfl, hrest⟩ := writeStmts_cons_inv hl
+      rw [List.foldl_cons, List.foldl_cons, step_stmt m s hm (h s (by simp))]
+      rw [ih ss' hrest (fun x hx => h x (List.mem_cons_of_mem _ hx)) _ (applyStmt_pending m s hm)]
+      simp [hb']
+
+/-! ## comments over one or several lines at file level -/
+
+/-- the follow-up lines of a comment at file level: the middle lines are appended, the last one closes the comment -/
+theorem pending_lines (m : RMatrix) (tgt : CmTarget) (mid : List Str) (last acc : Str)
+    (hmid : ∀ l ∈ mid, endsStatement (escapeQuotes l) = false) (hlast : last.getLast? ≠ some '\\') :
+    (mid.map escapeQuotes ++ [escapeQuotes last ++ ['"', ';']]).foldl stepFile { m with pending := some (tgt, acc) } =
+      closeComment m tgt (acc ++ '\n' :: joinLines (mid ++ [last])) := by
+  induction mid generalizing acc with
+  | nil =>
+    simp only [List.map_nil, List.nil_append, List.foldl_cons, List.foldl_nil, joinLines]
+    unfold stepFile
+    simp only [endsStatement_close, if_true]
+    rw [unescape_escape_close _ hlast]
+    have e : acc ++ '\n' :: (last ++ ['"', ';']) = (acc ++ '\n' :: last) ++ ['"', ';'] := by simp
+    rw [e, dropClosing_close]
+    rfl
+  | cons l mid ih =>
+    simp only [List.map_cons, List.cons_append, List.foldl_cons]
+    have hstep : stepFile { m with pending := some (tgt, acc) } (escapeQuotes l) =
+        { m with pending := some (tgt, acc ++ '\n' :: l) } := by
+      unfold stepFile
+      simp only [hmid l (by simp), unescape_escape, Bool.false_eq_true, if_false]
+    rw [hstep, ih _ (fun x hx => hmid x (List.mem_cons_of_mem _ hx)), joinLines_cons l _ (by simp)]
+    simp
+
+theorem dropWhile_append_stop (p : Char → Bool) (u v : Str) (c : Char) (hv : v.head? = some c) (hc : p c = false) :
+    (u ++ v).dropWhile p = u.dropWhile p ++ v := by
+  induction u with
+  | nil =>
+    cases v with
+    | nil => simp at hv
+    | cons x t => simp at hv; subst hv; simp [hc]
+  | cons a u ih =>
+    by_cases ha : p a = true
+    · simp [ha, ih]
+    · simp [ha]
+
+/-- a head that begins and ends with a non-blank character is kept by `strip()`; only the end of the body is stripped -/
+theorem stripWs_head_body (a b : Str) (x y : Char) (hx : a.head? = some x) (hy : a.getLast? = some y)
+    (hxw : isWs x = false) (hyw : isWs y = false) : stripWs (a ++ b) = a ++ rstripWs b := by
+  unfold stripWs rstripWs
+  have e1 : (a ++ b).dropWhile isWs = a ++ b := by
+    cases a with
+    | nil => simp at hx
+    | cons c t => simp at hx; subst hx; simp [hxw]
+  rw [e1, List.reverse_append]
+  have hh : a.reverse.head? = some y := by rw [List.head?_reverse]; exact hy
+  rw [dropWhile_append_stop isWs b.reverse a.reverse y hh hyw]
+  simp
+
+theorem lit_cm_bo : "CM_ BO_ ".toList = ['C', 'M', '_', ' ', 'B', 'O', '_', ' '] := by decide
+theorem lit_cm_sg : "CM_ SG_ ".toList = ['C', 'M', '_', ' ', 'S', 'G', '_', ' '] := by decide
+theorem lit_cm_bu : "CM_ BU_ ".toList = ['C', 'M', '_', ' ', 'B', 'U', '_', ' '] := by decide
+theorem lit_sq2 : "  \"".toList = [' ', ' ', '"'] := by decide
+theorem lit_sq1 : " \"".toList = [' ', '"'] := by decide
+
+theorem tokenSp_tok (tok r : Str) (hne : tok ≠ []) (h : ∀ c ∈ tok, isBlank c = false) :
+    tokenSp (tok ++ ' ' :: r) = some (tok, skipSp r) := by
+  unfold tokenSp
+  rw [StmtProofs.span_tok tok r h]
+  cases tok with
+  | nil => exact absurd rfl hne
+  | cons c t => rfl
+
+theorem isDig_not_blank {c : Char} (h : IsDig c) : isBlank c = false := by
+  cases hb : isBlank c with
+  | false => rfl
+  | true =>
+    exfalso
+    simp only [isBlank, isWs, Bool.or_eq_true, beq_iff_eq] at hb
+    rcases hb with (((((rfl | rfl) | rfl) | rfl)) | rfl) | rfl <;> (revert h; unfold IsDig; decide)
+
+theorem digits_not_blank (n : Nat) : ∀ c ∈ natDigits n, isBlank c = false :=
+  fun c hc => isDig_not_blank (natDigits_allDig n c hc)
+
+theorem ident_not_blank {s : Str} (h : isIdent s = true) : ∀ c ∈ s, isBlank c = false :=
+  fun c hc => ValProofs.isBlank_of_identChar c (isIdent_all h c hc)
+
+/-- the head of a frame comment is read back, whatever follows the opening quote -/
+theorem parseCmHead_bo (id : Nat) (body : Str) :
+    parseCmHead .cmBo (renderCmHead (.bo id) ++ body) = some (some (.bo id), body) := by
+  unfold parseCmHead renderCmHead
+  rw [lit_cm_bo, lit_sq2]
+  simp only [List.cons_append, List.nil_append, List.append_assoc, List.drop_succ_cons, List.drop_zero]
+  rw [skipSp_space, skipSp_of_ne 'B' _ (by decide)]
+  simp only [List.drop_succ_cons, List.drop_zero]
+  rw [skipSp_space, skipSp_natDigits]
+  rw [tokenSp_tok (natDigits id) _ (natDigits_ne_nil id) (digits_not_blank id)]
+  rw [skipSp_space, skipSp_of_ne '"' _ (by decide)]
+  simp only [digitsToNat_natDigits', Option.map_some]
+
+theorem parseCmHead_sg (id : Nat) (name body : Str) (hn : isIdent name = true) :
+    parseCmHead .cmSg (renderCmHead (.sg id name) ++ body) = some (some (.sg id name), body) := by
+  unfold parseCmHead renderCmHead
+  rw [lit_cm_sg, lit_sq1]
+  simp only [List.cons_append, List.nil_append, List.append_assoc, List.drop_succ_cons, List.drop_zero]
+  rw [skipSp_space, skipSp_of_ne 'S' _ (by decide)]
+  simp only [List.drop_succ_cons, List.drop_zero]
+  rw [skipSp_space, skipSp_natDigits]
+  rw [tokenSp_tok (natDigits id) _ (natDigits_ne_nil id) (digits_not_blank id)]
+  have hne := isIdent_ne_nil hn
+  obtain ⟨c, t, rfl⟩ := List.exists_cons_of_ne_nil hne
+  have hc : c ≠ ' ' := identChar_ne_space (isIdent_all hn c (by simp))
+  rw [List.cons_append, skipSp_of_ne c _ hc, ← List.cons_append]
+  simp only
+  rw [tokenSp_tok (c :: t) _ (by simp) (ident_not_blank hn)]
+  rw [skipSp_of_ne '"' _ (by decide)]
+  simp only [digitsToNat_natDigits', Option.map_some]
+
+theorem parseCmHead_bu (name body : Str) (hn : isIdent name = true) :
+    parseCmHead .cmBu (renderCmHead (.bu name) ++ body) = some (some (.bu name), body) := by
+  unfold parseCmHead renderCmHead
+  rw [lit_cm_bu, lit_sq1]
+  simp only [List.cons_append, List.nil_append, List.append_assoc, List.drop_succ_cons, List.drop_zero]
+  rw [skipSp_space, skipSp_of_ne 'B' _ (by decide)]
+  simp only [List.drop_succ_cons, List.drop_zero]
+  have hne := isIdent_ne_nil hn
+  obtain ⟨c, t, rfl⟩ := List.exists_cons_of_ne_nil hne
+  have hc : c ≠ ' ' := identChar_ne_space (isIdent_all hn c (by simp))
+  rw [skipSp_space, List.cons_append, skipSp_of_ne c _ hc, ← List.cons_append]
+  rw [tokenSp_tok (c :: t) _ (by simp) (ident_not_blank hn)]
+  rw [skipSp_of_ne '"' _ (by decide)]
+  rfl
+
+/-- the kind of line a comment head makes -/
+def kindOfHead : CmHead → LineKind
+  | .sg _ _ => .cmSg
+  | .bo _ => .cmBo
+  | .bu _ => .cmBu
+
+theorem parseCmHead_render (h : CmHead) (body : Str) (hw : wfCmHead h = true) :
+    parseCmHead (kindOfHead h) (renderCmHead h ++ body) = some (some h, body) := by
+  cases h with
+  | sg id name => exact parseCmHead_sg id name body hw
+  | bo id => exact parseCmHead_bo id body
+  | bu name => exact parseCmHead_bu name body hw
+
+theorem renderCmHead_shape (h : CmHead) :
+    ∃ x r, renderCmHead h = 'C' :: 'M' :: '_' :: ' ' :: x :: (r ++ ['"']) ∧
+      ((h = h ∧ x = 'S' ∧ ∃ r', r = 'G' :: '_' :: ' ' :: r' ∧ kindOfHead h = .cmSg) ∨
+       (x = 'B' ∧ ∃ r', r = 'O' :: '_' :: ' ' :: r' ∧ kindOfHead h = .cmBo) ∨
+       (x = 'B' ∧ ∃ r', r = 'U' :: '_' :: ' ' :: r' ∧ kindOfHead h = .cmBu)) := by
+  cases h with
+  | sg id name =>
+    refine ⟨'S', 'G' :: '_' :: ' ' :: (natDigits id ++ ' ' :: name ++ [' ']), ?_, Or.inl ⟨rfl, rfl, _, rfl, rfl⟩⟩
+    unfold renderCmHead; rw [lit_cm_sg, lit_sq1]; simp
+  | bo id =>
+    refine ⟨'B', 'O' :: '_' :: ' ' :: (natDigits id ++ [' ', ' ']), ?_, Or.inr (Or.inl ⟨rfl, _, rfl, rfl⟩)⟩
+    unfold renderCmHead; rw [lit_cm_bo, lit_sq2]; simp
+  | bu name =>
+    refine ⟨'B', 'U' :: '_' :: ' ' :: (name ++ [' ']), ?_, Or.inr (Or.inr ⟨rfl, _, rfl, rfl⟩)⟩
+    unfold renderCmHead; rw [lit_cm_bu, lit_sq1]; simp
+
+theorem head_first_last (h : CmHead) : (renderCmHead h).head? = some 'C' ∧ (renderCmHead h).getLast? = some '"' := by
+  obtain ⟨x, r, hr, _⟩ := renderCmHead_shape h
+  rw [hr]
+  refine ⟨rfl, ?_⟩
+  have : 'C' :: 'M' :: '_' :: ' ' :: x :: (r ++ ['"']) = ('C' :: 'M' :: '_' :: ' ' :: x :: r) ++ ['"'] := by simp
+  rw [this, List.getLast?_append]; rfl
+
+theorem classify_head (h : CmHead) (rest : Str) (l : Str) (hs : stripWs l = renderCmHead h ++ rest) :
+    classify l = kindOfHead h := by
+  obtain ⟨x, r, hr, hk⟩ := renderCmHead_shape h
+  unfold classify
+  rw [hs, hr]
+  rcases hk with ⟨_, rfl, r', rfl, hk⟩ | ⟨rfl, r', rfl, hk⟩ | ⟨rfl, r', rfl, hk⟩ <;> rw [hk] <;> simp [startsWith, cmClass]
+
+/-- a comment that fits one line -/
+theorem scan_cm_one (h : CmHead) (t : Str) (hw : wfCmHead h = true) :
+    scanLine (renderCmHead h ++ (escapeQuotes t ++ ['"', ';'])) = .item (.cm h t) := by
+  obtain ⟨h1, h2⟩ := head_first_last h
+  have hs : stripWs (renderCmHead h ++ (escapeQuotes t ++ ['"', ';'])) = renderCmHead h ++ (escapeQuotes t ++ ['"', ';']) := by
+    rw [stripWs_head_body _ _ 'C' '"' h1 h2 (by decide) (by decide), rstripWs_close]
+  have hc := classify_head h _ _ hs
+  have hne : (renderCmHead h ++ (escapeQuotes t ++ ['"', ';'])).isEmpty = false := by
+    cases hh : renderCmHead h with
+    | nil => rw [hh] at h1; simp at h1
+    | cons c r => rfl
+  have hcl : closeOnLine (escapeQuotes t ++ ['"', ';']) = some (escapeQuotes t) := by
+    have := close_on_line (escapeQuotes t)
+    rwa [rstripWs_close] at this
+  unfold scanLine
+  simp only [hs, hne, hc]
+  cases h <;> simp only [kindOfHead, Bool.false_eq_true, if_false] <;>
+    (first
+      | (rw [show LineKind.cmSg = kindOfHead (.sg _ _) from rfl, parseCmHead_render _ _ hw])
+      | (rw [show LineKind.cmBo = kindOfHead (.bo _) from rfl, parseCmHead_render _ _ hw])
+      | (rw [show LineKind.cmBu = kindOfHead (.bu _) from rfl, parseCmHead_render _ _ hw])) <;>
+    simp only [hcl, unescape_escape]
+
+theorem lstripWs_head (h : CmHead) (rest : Str) : lstripWs (renderCmHead h ++ rest) = renderCmHead h ++ rest := by
+  obtain ⟨x, r, hr, _⟩ := renderCmHead_shape h
+  rw [hr]; rfl
+
+/-- the first line of a comment that runs over several lines -/
+theorem scan_cm_open (h : CmHead) (l0 : Str) (hw : wfCmHead h = true) (h0 : quoteThenSemi l0 = false) :
+    scanLine (renderCmHead h ++ escapeQuotes l0) = .item (.cmOpen h l0) := by
+  obtain ⟨h1, h2⟩ := head_first_last h
+  have hs : stripWs (renderCmHead h ++ escapeQuotes l0) = renderCmHead h ++ rstripWs (escapeQuotes l0) :=
+    stripWs_head_body _ _ 'C' '"' h1 h2 (by decide) (by decide)
+  have hc := classify_head h _ _ hs
+  have hne : (renderCmHead h ++ rstripWs (escapeQuotes l0)).isEmpty = false := by
+    cases hh : renderCmHead h with
+    | nil => rw [hh] at h1; simp at h1
+    | cons c r => rfl
+  have hcl := first_line_open l0 h0
+  unfold scanLine
+  simp only [hs, hne, hc, lstripWs_head]
+  cases h <;> simp only [kindOfHead, Bool.false_eq_true, if_false] <;>
+    (first
+      | (rw [show LineKind.cmSg = kindOfHead (.sg _ _) from rfl, parseCmHead_render _ _ hw, parseCmHead_render _ _ hw])
+      | (rw [show LineKind.cmBo = kindOfHead (.bo _) from rfl, parseCmHead_render _ _ hw, parseCmHead_render _ _ hw])
+      | (rw [show LineKind.cmBu = kindOfHead (.bu _) from rfl, parseCmHead_render _ _ hw, parseCmHead_render _ _ hw])) <;>
+    simp only [hcl, unescape_escape]
+
+theorem pending_none_eq (m : RMatrix) (hm : m.pending = none) : { m with pending := none } = m := by
+  cases m; simp_all
+
+theorem frameIdx_some_key (m : RMatrix) (id fi : Nat) (h : frameIdx m id = some fi) : (keyOfCompound id).isSome = true := by
+  unfold frameIdx at h
+  cases hk : keyOfCompound id with
+  | none => rw [hk] at h; simp at h
+  | some k => rfl
+
+/-- opening a comment over several lines and closing it with the complete text is giving the comment on one line -/
+def cmOpenOk (m : RMatrix) : CmHead → Bool
+  | .sg id _ => (frameIdx m id).isSome
+  | .bo id => (keyOfCompound id).isSome
+  | .bu name => (ecuIdx m name).isSome
+
+theorem open_close (m : RMatrix) (h : CmHead) (l0 text : Str) (hm : m.pending = none) (hok : cmOpenOk m h = true) :
+    ∃ m' tgt, applyItem m (.cmOpen h l0) = { m' with pending := some (tgt, l0) } ∧
+      closeComment m' tgt text = applyItem m (.cm h text) := by
+  cases h with
+  | sg id name =>
+    simp only [cmOpenOk] at hok
+    obtain ⟨fi, hfi⟩ := Option.isSome_iff_exists.mp hok
+    have hk := frameIdx_some_key m id fi hfi
+    have hkn : ((keyOfCompound id).isNone) = false := by
+      cases hkk : keyOfCompound id with
+      | none => rw [hkk] at hk; simp at hk
+      | some k => rfl
+    refine ⟨{ m with cur := some fi }, .sig fi ((m.frames[fi]?).bind (sigIdx · name)), ?_, ?_⟩
+    · simp only [applyItem, Item.frameNo, hkn, Bool.false_eq_true, if_false, applyCore, hfi]
+    · simp only [applyItem, Item.frameNo, hkn, Bool.false_eq_true, if_false, applyCore, hfi, closeComment]
+      cases hsi : (m.frames[fi]?).bind (sigIdx · name) with
+      | none => simp only [hm]
+      | some si => simp only [hm]
+  | bo id =>
+    simp only [cmOpenOk] at hok
+    have hkn : ((keyOfCompound id).isNone) = false := by
+      cases hkk : keyOfCompound id with
+      | none => rw [hkk] at hok; simp at hok
+      | some k => rfl
+    refine ⟨{ m with cur := frameIdx m id }, .frame (frameIdx m id), ?_, ?_⟩
+    · simp only [applyItem, Item.frameNo, hkn, Bool.false_eq_true, if_false, applyCore]
+    · simp only [applyItem, Item.frameNo, hkn, Bool.false_eq_true, if_false, applyCore, closeComment]
+      cases hfi : frameIdx m id with
+      | none => simp only [hm]
+      | some fi => simp only [hm]
+  | bu name =>
+    simp only [cmOpenOk] at hok
+    obtain ⟨ei, hei⟩ := Option.isSome_iff_exists.mp hok
+    refine ⟨m, .ecu ei, ?_, ?_⟩
+    · simp only [applyItem, Item.frameNo, applyCore, hei]
+    · simp only [applyItem, Item.frameNo, applyCore, hei, closeComment]
+      simp only [hm]
+
+theorem stepFile_none (m : RMatrix) (l : Str) (hm : m.pending = none) :
+    stepFile m l = match scanLine l with
+      | .skip => m
+      | .error => m.err
+      | .item it => applyItem m it := by
+  unfold stepFile; rw [hm]; rfl
+
+/-- a comment statement - on one line or over several - read at a point where it can be recognised has the effect of giving the
+comment to its object -/
+theorem fold_cm (m : RMatrix) (h : CmHead) (text : Str) (hm : m.pending = none)
+    (hok : (FileStmt.cm h text).okIn m = true) :
+    (cmLines h text).foldl stepFile m = applyItem m (.cm h text) := by
+  simp only [FileStmt.okIn, Bool.and_eq_true, Bool.or_eq_true, Bool.not_eq_true'] at hok
+  obtain ⟨⟨hw, hwf⟩, hmulti⟩ := hok
+  obtain ⟨hne, hnl, hjoin⟩ := lines_of text
+  cases hls : splitLines text with
+  | nil => exact absurd hls hne
+  | cons l0 tl =>
+    rw [hls] at hnl hjoin
+    cases tl with
+    | nil =>
+      simp only [joinLines] at hjoin
+      subst hjoin
+      have hr := render_lines [] l0 (by simpa using hnl)
+      simp only [List.nil_append, joinLines, List.map_nil] at hr
+      unfold cmLines
+      rw [hr]
+      simp only [List.foldl_cons, List.foldl_nil]
+      rw [stepFile_none _ _ hm, scan_cm_one h l0 hw]
+    | cons l1 r =>
+      have hcontains : text.contains '\n' = true := by
+        rw [← hjoin]
+        simp [joinLines]
+      have hok' : cmOpenOk m h = true := by
+        rcases hmulti with hc | hc
+        · rw [hcontains] at hc; exact absurd hc (by decide)
+        · cases h <;> exact hc
+      unfold wfComment at hwf
+      rw [hls] at hwf
+      simp only [Bool.and_eq_true, Bool.not_eq_true', List.all_eq_true, bne_iff_ne, ne_eq] at hwf
+      obtain ⟨_, ⟨h0, hmid⟩, hbs⟩ := hwf
+      obtain ⟨mid, last, hml, hdl⟩ := snoc_of_cons l1 r
+      rw [hdl] at hmid
+      rw [hml] at hnl hjoin
+      have hlast : last.getLast? ≠ some '\\' := by
+        intro hc
+        have := getLast_joinLines (l0 :: mid) last _ hc
+        rw [List.cons_append, hjoin] at this
+        exact hbs this
+      have hr := render_lines (l0 :: mid) last (by simpa using hnl)
+      rw [List.cons_append, hjoin, List.map_cons, List.cons_append] at hr
+      unfold cmLines
+      rw [hr]
+      simp only [List.foldl_cons]
+      rw [stepFile_none _ _ hm, scan_cm_open h l0 hw h0]
+      simp only
+      obtain ⟨m', tgt, hopen, hclose⟩ := open_close m h l0 text hm hok'
+      rw [hopen, pending_lines m' tgt mid last l0 hmid hlast]
+      rw [← hclose]
+      congr 1
+      rw [← hjoin, joinLines_cons l0 _ (by simp)]
+
+theorem apply_pending (m : RMatrix) (f : FileStmt) (hm : m.pending = none) : (f.apply m).pending = none := by
+  cases f with
+  | one s => exact applyStmt_pending m s hm
+  | cm h text => exact applyItem_pending m (.cm h text) hm (by intro hd first e; cases e)
+
+theorem fold_stmt (m : RMatrix) (f : FileStmt) (hm : m.pending = none) (hok : f.okIn m = true) :
+    f.lines.foldl stepFile m = f.apply m := by
+  cases f with
+  | one s =>
+    simp only [FileStmt.lines, List.foldl_cons, List.foldl_nil, FileStmt.apply]
+    exact step_stmt m s hm hok
+  | cm h text => exact fold_cm m h text hm hok
+
+/-- the whole file, comments over several lines included: reading what was written is the fold of the statements' effects -/
+theorem read_file (fs : List FileStmt) (m : RMatrix) (hm : m.pending = none) (hok : okFile m fs = true) :
+    (writeFile fs).foldl stepFile m = fs.foldl FileStmt.apply m := by
+  induction fs generalizing m with
+  | nil => rfl
+  | cons f fs ih =>
+    simp only [okFile, Bool.and_eq_true] at hok
+    simp only [writeFile, List.flatMap_cons, List.foldl_append, List.foldl_cons]
+    rw [fold_stmt m f hm hok.1]
+    exact ih _ (apply_pending m f hm) hok.2
 
 end CanVerif.Dbc.FileProofs
